@@ -298,7 +298,34 @@ def template_promo(rng):
     return fen_of(b, "w")
 
 
-TEMPLATES = [("pin", template_pin), ("check", template_check), ("ep", template_ep),
+def template_kxr(rng):
+    """king that still holds castling rights next to an enemy man it may capture (or not)"""
+    kf = rng.randrange(1, 7)
+    b = {sq(kf, 0): "K"}
+    cas = ""
+    if rng.random() < 0.8:
+        rf = rng.randrange(kf + 1, 8)
+        b[sq(rf, 0)] = "R"
+        cas += FILES[rf].upper() if rng.random() < 0.5 or rf != 7 else "K"
+    if rng.random() < 0.6:
+        rf = rng.randrange(0, kf)
+        if sq(rf, 0) not in b:
+            b[sq(rf, 0)] = "R"
+            cas += FILES[rf].upper() if rng.random() < 0.5 or rf != 0 else "Q"
+    if not cas:
+        return None
+    for _ in range(rng.randrange(1, 3)):
+        df, dr = rng.choice([(1, 0), (-1, 0), (1, 1), (0, 1), (-1, 1)])
+        t = sq(kf + df, dr)
+        if on(kf + df, dr) and t not in b:
+            b[t] = rng.choice("rrrqbnp" if dr == 1 else "rrrqbn")
+    free = [s for s in range(24, 64) if s not in b]
+    b[rng.choice(free)] = "k"
+    b = rand_extra(rng, b, rng.randrange(0, 4))
+    return fen_of(b, "w", cas)
+
+
+TEMPLATES = [("kxr", template_kxr), ("pin", template_pin), ("check", template_check), ("ep", template_ep),
              ("castle960", template_castle), ("promo", template_promo)]
 
 
